@@ -16,6 +16,9 @@ def showB (d : List (String × Bool)) : String :=
   showKVs (d.map fun kv => (kv.1, if kv.2 then "1" else "0"))
 def showL (l : List String) : String := if l.isEmpty then "-" else ",".intercalate l
 
+/-- limit tokens: `L<k>` an interval the minimiser accepts, `X<k>` one it refuses (lower > upper) -/
+instance : LimitOK String := ⟨fun l => !l.startsWith "X"⟩
+
 abbrev S := St String String
 
 def parseOp (ts : List String) : Option (Op String String) :=
